@@ -65,8 +65,13 @@ def variants(src):
             continue
         c = CALLW.match(ln)
         if c and not in_w:
-            gen.append(f"for gv in {c.group(1)}.w({c.group(2)})")
+            gen.append(f"gobj{len(gen)} := {c.group(1)}.w({c.group(2)})")
+            gen.append(f"for gv in gobj{len(gen) - 1}")
             gen.append("  println((gv).inspect)")
+            gen.append("end")
+            # a finished generator stays finished: iterating the same object again yields nothing
+            gen.append(f"for gv in gobj{len(gen) - 4}")
+            gen.append('  println("again " + (gv).inspect)')
             gen.append("end")
             asy.append(f"println((await {c.group(1)}.w({c.group(2)})).inspect)")
             continue
